@@ -612,7 +612,8 @@ def run(ctx):
                "table in which more than 10 % of the peptides are neither, which at <= 10 rows is any such peptide; "
                "decoy peptides are the decoy versions of digest peptides and are flagged as decoys")
     ctx.assume("the peptide table holds every peptide string once (the peptide level of assign_confidence guarantees it); "
-               "end to end every PSM has its own spectrum and peptide string, so the PSM and peptide levels retain every row")
+               "end to end every PSM has its own spectrum and peptide string, so the PSM and peptide levels retain every row; "
+               "do_rollup=True, higher score = better (the protein level is computed from the peptide-level file)")
     ctx.assume("modification / flanking notations are those strip_peptides documents: X.SEQ.Y flanks, [..] and (..) "
                "modifications (also N-terminal, also with a '.' inside), inserted lower-case tokens, or an entirely "
                "lower-case table")
